@@ -1,6 +1,7 @@
 package main
 
 import (
+	"sort"
 	"go/types"
 	"strings"
 
@@ -182,27 +183,113 @@ func variadicElems(v ssa.Value) []ssa.Value {
 	return out
 }
 
-// isCachePut/Get: datastore writes/reads with a constant key.
-func (c *Ctx) cachePutKey(call ssa.CallInstruction) (string, bool) {
+// dsKeysOf: the constant keys a datastore key expression may stand for: the constant at the
+// site, or — when the key is built from a string parameter of the enclosing function (a
+// helper shared by several keys) — the constants handed in at its static call sites.
+func (c *Ctx) dsKeysOf(v ssa.Value) []string {
+	if k, ok := dsKeyOf(v); ok {
+		return []string{k}
+	}
+	call, ok := v.(*ssa.Call)
+	if !ok || calleeFull(call) != "github.com/ipfs/go-datastore.NewKey" || len(call.Call.Args) != 1 {
+		return nil
+	}
+	a := call.Call.Args[0]
+	if j, ok := a.(*ssa.Call); ok && (calleeFull(j) == "path.Join" || calleeFull(j) == "path/filepath.Join") {
+		if last := lastVariadicElem(j.Call.Args[len(j.Call.Args)-1]); last != nil {
+			a = last
+		}
+	}
+	p, ok := a.(*ssa.Parameter)
+	if !ok {
+		return nil
+	}
+	f := p.Parent()
+	idx := -1
+	for i, q := range f.Params {
+		if q == p {
+			idx = i
+		}
+	}
+	if idx < 0 {
+		return nil
+	}
+	seen := map[string]bool{}
+	var out []string
+	unknown := false
+	for _, g := range c.RepoFns {
+		if c.isTestFile(g.Pos()) {
+			continue
+		}
+		eachCall(g, func(cs ssa.CallInstruction) {
+			if cs.Common().StaticCallee() != f || idx >= len(cs.Common().Args) {
+				return
+			}
+			if s, ok := constString(cs.Common().Args[idx]); ok {
+				if !seen[s] {
+					seen[s] = true
+					out = append(out, s)
+				}
+			} else {
+				unknown = true
+			}
+		})
+	}
+	if unknown {
+		return nil
+	}
+	sort.Strings(out)
+	return out
+}
+
+// cachePutKeys / cacheGetKeys: datastore writes/reads with resolvable constant keys.
+func (c *Ctx) cachePutKeys(call ssa.CallInstruction) []string {
 	if !c.isMethodOn(call, "Put", ifaceDSWrite) {
-		return "", false
+		return nil
 	}
 	a := argsOf(call)
 	if len(a) < 2 {
+		return nil
+	}
+	return c.dsKeysOf(a[1])
+}
+
+func (c *Ctx) cacheGetKeys(call ssa.CallInstruction) []string {
+	if !c.isMethodOn(call, "Get", ifaceDSRead) {
+		return nil
+	}
+	a := argsOf(call)
+	if len(a) < 2 {
+		return nil
+	}
+	return c.dsKeysOf(a[1])
+}
+
+// cachePutKey / cacheGetKey: the key of the site; a site shared by several keys (helper with
+// a key parameter) is named by all of them joined with "|".
+func (c *Ctx) cachePutKey(call ssa.CallInstruction) (string, bool) {
+	ks := c.cachePutKeys(call)
+	if len(ks) == 0 {
 		return "", false
 	}
-	return dsKeyOf(a[1])
+	return strings.Join(ks, "|"), true
 }
 
 func (c *Ctx) cacheGetKey(call ssa.CallInstruction) (string, bool) {
-	if !c.isMethodOn(call, "Get", ifaceDSRead) {
+	ks := c.cacheGetKeys(call)
+	if len(ks) == 0 {
 		return "", false
 	}
-	a := argsOf(call)
-	if len(a) < 2 {
-		return "", false
+	return strings.Join(ks, "|"), true
+}
+
+func hasKey(ks []string, k string) bool {
+	for _, x := range ks {
+		if x == k {
+			return true
+		}
 	}
-	return dsKeyOf(a[1])
+	return false
 }
 
 // emitEventType returns the dynamic type of the value handed to event.Emitter.Emit.
